@@ -136,4 +136,6 @@ SUBS.append(Sub("long-runs-all-dtypes", run, kind="enum", enumerate=specs.enum_l
 SUBS += [Sub(f"fuzz:{t}", run, kind="fuzz", fuzz_target=("spec", t, _adapter), budget=(0, 60000), shards=(1, 2),
              rule=f"Atheris/libFuzzer, library instrumented: bytes -> {t} spec via the reference decoder (domain filter) -> same round-trip oracle; "
                   "shard 0 starts from a corpus of reference-encoded generated blocks, shard 1 from an empty corpus") for t in specs.TYPES]
+from ..core import optimised_child_sub  # noqa: E402
+SUBS.append(optimised_child_sub("C01", ["boundary-counts", "platCal", "events"]))
 TIME_BUDGET = {"quick": 120, "thorough": 1200}
